@@ -335,17 +335,18 @@ PROPS['C15'] = {
 PROPS['C12'] = {
     'title': 'Closest and interior points lie on the geometry',
     'level': 'proof',
-    'verus': [],
+    'verus': ['c12_closest'],
     'kani_extra': ['--no-memory-safety-checks', '--no-overflow-checks', '--no-assertion-reach-checks'],
     'kani': [
         ('geo', 'c12.rs', r'^c12_k_(best_of_two|point_and_axis_line)$', 'complete', 'quick'),
         ('geo', 'c12.rs', r'^c12_k_linestring_with_repeated_last_vertex$', 'bounded', 'quick'),
     ],
-    'trusted': ['f64::hypot modelled (exact on axis-parallel arguments), robust::orient2d stubbed by its assumed contract',
+    'trusted': ['Verus unit c12_closest: assumed contracts of Euclidean point-point distance / line length (zero exactly for coincident end points), of Line/Rect/Triangle intersects Point (proved separately in c02_intersects), of the generic fold closest_of; scalar division: only quotient < 0 iff numerator < 0 and quotient > 1 iff numerator > divisor (positive divisor) are assumed; exact-ring scalar whose values are ordered like integers',
+                'f64::hypot modelled (exact on axis-parallel arguments), robust::orient2d stubbed by its assumed contract',
                 'complete only for the stated lattice: Closest variants x points on the x-axis in [-6,6]; Point and axis-parallel Line against every lattice query point in [-6,6]^2'],
     'undecided_clauses': [
         'interior_point (sweep-line based) is NOT under contract',
-        'closest_point for Polygon / Rect / Triangle / Multi* (harness c12_k_rect_intersection_iff_intersects is kept but times out at 600 s), slanted lines, distance minimality within tolerance',
+        'closest_point for Polygon / Multi* / GeometryCollection (iterator chains; `closest_of` itself is a generic iterator loop outside Verus); for Rect / Triangle only the branch structure is proved (Intersection(p) exactly on the intersects branch) (harness c12_k_rect_intersection_iff_intersects is kept but times out at 600 s), slanted lines, distance minimality within tolerance',
     ],
 }
 
